@@ -196,10 +196,16 @@ def task_pair_loop(pr, repo):
     C05.task_set_determinants(pr, repo)
 
 
+def task_coupling_search(pr, repo):
+    # listing every residue is equivalent to not giving the option: coupled residues are searched for all the same (C15-ID)
+    from . import C15
+    C15.task_identify(pr, repo)
+
+
 def run(pr, repo):
     from . import C16
     # an unlisted residue still acts as charge / hydrogen-bond partner: pair terms are decided per term (iterative pairs included)
-    pr.parallel([(task_parse, ()), (task_init_group, ()), (task_setup_and_add, ()), (task_make_copy, ()), (C16.task_iterative, (True,)), (task_pair_loop, ())])
+    pr.parallel([(task_parse, ()), (task_init_group, ()), (task_setup_and_add, ()), (task_make_copy, ()), (C16.task_iterative, (True,)), (task_pair_loop, ()), (task_coupling_search, ())])
     c = frames.census(repo)
     readers = c.readers('titrate_only')
     extra = sorted(readers - {CC + '.init_group', 'propka.lib.loadOptions'})
@@ -275,6 +281,33 @@ def bounded(pr):
                         bad.append('%s %s: titratable %r, listed %r, titratable without option %r' % (cn, g.label, g.titratable, k in listed, was))
             if bad and len(viol) < 3:
                 viol.append({'what': '%s -i %s: %s' % (name, fmt(listed)[:60], bad[:2]), 'replay': None})
+    # selections given through the API as the regression tests do (loadOptions, then options.titrate_only = [...]): an EMPTY selection
+    # and a selection of residues that do not exist titrate nothing
+    try:
+        import propka.lib as plib0
+        import propka.input as pinp0
+        from propka.parameters import Parameters as Par0
+        from propka.molecular_container import MolecularContainer as MC0
+        f0 = os.path.join(native.PDB_DIR, '3SGB-subset.pdb') if 'os' in dir() else None
+    except Exception:      # noqa
+        f0 = None
+    import os
+    f0 = os.path.join(native.PDB_DIR, '3SGB-subset.pdb')
+    for sel in ([], [('Z', 999, ' ')]):
+        ev += 1
+        classes.add('API selection %r' % (sel,))
+        try:
+            o = plib0.loadOptions(['-q', f0])
+            o.titrate_only = list(sel)
+            m = MC0(pinp0.read_parameter_file(o.parameters, Par0()), o)
+            m = pinp0.read_molecule_file(f0, m)
+            m.calculate_pka()
+            nt = len([g for g in m.conformations['AVR'].groups if g.titratable])
+            if nt != 0 and len(viol) < 3:
+                viol.append({'what': '3SGB-subset with options.titrate_only = %r (set through the API): %d groups are titrated, the '
+                                     'selection names none' % (sel, nt), 'replay': None})
+        except (Exception, SystemExit) as e:     # noqa
+            viol.append({'what': 'API selection %r: %s: %s' % (sel, type(e).__name__, e), 'replay': None})
     # several structures in one invocation (the loop of propka.run.main: ONE options object for all files): the list still means the
     # same for the second structure
     import os
